@@ -69,6 +69,9 @@ class SharedSDE(SmoothSDE):
     alone describe the same functions (the prescription is computed from them)."""
 
     def _hid(self, t, y):
+        if self.noise_type == 'diagonal':
+            # diagonal noise: component i of the diffusion may depend on y_i only, so the shared layer is element-wise
+            return torch.tanh(y * torch.diagonal(self.W) + self.b)
         return torch.tanh(y @ self.W + self.b)
 
     def _f_of(self, t, y, hid):
